@@ -1,6 +1,9 @@
 package profile
 
-import "fmt"
+import (
+	"fmt"
+	"sync"
+)
 
 type VarGenerator struct {
 	vars    []string
@@ -17,13 +20,20 @@ func NewVarGenerator() VarGenerator {
 
 var globalGenerator = NewVarGenerator()
 
+// globalGeneratorLock guards globalGenerator: profiles can be compiled concurrently
+var globalGeneratorLock sync.Mutex
+
 func Genvar(hint string) string {
+	globalGeneratorLock.Lock()
+	defer globalGeneratorLock.Unlock()
 	globalGenerator.counter++
 	genvarTrace(hint, globalGenerator.counter)
 	return fmt.Sprintf("gen_%s_%d", hint, globalGenerator.counter)
 }
 
 func GenReset() {
+	globalGeneratorLock.Lock()
+	defer globalGeneratorLock.Unlock()
 	globalGenerator.counter = 0
 }
 
